@@ -95,7 +95,7 @@ def run(ck: vlib.Check):
         ok = ck.compile_gen(["DigiId.v"])
     # 2 prove
     if ok:
-        ck.prove(["C05Proofs.v"], "C05.v")
+        ck.prove(["C05Proofs.v", "C05Inj.v"], "C05.v")
     # 3 correspondence (model in vm_compute vs implementation)
     n = 1320 if ck.tier == "quick" else 6600
     cases = gen_cases(ck.rng, n)
